@@ -242,6 +242,7 @@ func c11Nas(suciBuf []byte, imsi string, mncLen int, dereg bool) string {
 
 // c11Ngap: the PLMN announced at NG Setup and repeated in user location IEs, as ManageNGSetup / RegisterUE produce it.
 func c11Ngap(imsi, mcc, mnc string, want []byte) string {
+	fw.Beat()
 	plmn := stgutg.EncodeSuci([]byte(imsi), len(mnc)).Buffer[1:4]
 	b, err := tglib.GetNGSetupRequest([]byte{0, 1, 2}, plmn, 24, "gnb")
 	if err != nil {
